@@ -17,6 +17,7 @@ func runC10(c *Ctx) {
 	c.Rule("C10-R1", "comments parsed and excluded text blanked before a line is published; writers of the line buffer", 6)
 	c.Rule("C10-R2", "nothing is collected from lines excluded by an earlier comment; such lines are blanked completely", 8)
 	c.Rule("C10-R3", "blanking preserves line structure", 4)
+	c.Rule("C10-R4", "inside ignore/begin only ignore/end ends the exclusion", 4)
 
 	const CR = "internal/parser.ContentReader"
 	rnl := c.MustFunc("C10-R1", "internal/parser.ContentReader.readNextLine")
@@ -239,6 +240,43 @@ func runC10(c *Ctx) {
 		c.Check(nPrev >= 1 && nPrev == good, "C10-R2", "parseComments:line excluded by an earlier comment is blanked completely", pc.Decl.Pos(), "emptyCurrentLine(nil)",
 			"a line excluded by ignore/next-line keeps its trailing comment text: a `# pint disable …` there is attached to a neighbouring rule by the YAML parser")
 		c.Check(len(calls) >= 3, "C10-R2", "parseComments:blanking sites", pc.Decl.Pos(), itoa(len(calls)), "fewer than three blanking calls")
+	}
+
+	// ---- R4: inside an ignore/begin block only ignore/end may end the exclusion ----
+	{
+		pm := parentMap(pc.Decl.Body)
+		n := 0
+		ast.Inspect(pc.Decl.Body, func(nd ast.Node) bool {
+			as, ok := nd.(*ast.AssignStmt)
+			if !ok || len(as.Lhs) != 1 || len(as.Rhs) != 1 {
+				return true
+			}
+			ends := (fieldSel(info, as.Lhs[0], CR, "autoReset") && exprStr(as.Rhs[0]) == "true") ||
+				(fieldSel(info, as.Lhs[0], CR, "skipNext") && exprStr(as.Rhs[0]) == "false")
+			if !ends {
+				return true
+			}
+			n++
+			okGuard := false
+			why := ""
+			for _, a := range lexicalGuards(pm, as, pc.Decl.Body) {
+				e := ast.Unparen(a.E)
+				switch {
+				case a.Tag == nil && !a.Truth && fieldSel(info, e, CR, "inBegin"):
+					okGuard, why = true, "guarded by !r.inBegin"
+				case a.Tag == nil && a.Truth && fieldSel(info, e, CR, "autoReset"):
+					okGuard, why = true, "only when auto-reset was armed outside a block"
+				case a.Tag != nil && a.Truth:
+					if k := constObj(info, e); k != nil && k.Name() == "skipEnd" {
+						okGuard, why = true, "ignore/end case"
+					}
+				}
+			}
+			c.Check(okGuard, "C10-R4", "parseComments:"+exprStr(as.Lhs[0])+" = "+exprStr(as.Rhs[0]), as.Pos(), why,
+				"the exclusion can be ended (or its auto-reset armed) while inside an ignore/begin block by something other than ignore/end: the rest of the block leaks into the document")
+			return true
+		})
+		c.Check(n >= 3, "C10-R4", "parseComments:exclusion-ending stores enumerated", pc.Decl.Pos(), itoa(n), "fewer than three stores found")
 	}
 
 	// ---- R3 ----
